@@ -31,20 +31,23 @@ def _coop_locks(obj):
 
 
 def _run(threads, sched, budget):
-    pos = [0]
+    """sched: strictly increasing global step numbers at which the running thread is preempted (to the next runnable
+    thread in round-robin order); every placement of the preemptions over the run is a distinct solver-chosen schedule"""
+    used = [False] * len(sched)
 
     def choose(step, nrunnable):
-        if pos[0] >= len(sched):
-            return 0
-        k = hx.concretize_range(sched[pos[0]], 0, 3) % nrunnable
-        pos[0] += 1
-        return k
+        for i in range(len(sched)):
+            if not used[i] and sched[i] == step:
+                used[i] = True
+                return 1
+        return 0
     return coop.run_choices(threads, choose, budget, max_steps=400)
 
 
 def seq_concurrent(start: int, sched: List[int]) -> bool:
     """
-    pre: 1 <= start <= MAXS and len(sched) == P["slots"] and all(0 <= s < P["threads"] for s in sched)
+    pre: 1 <= start <= MAXS and len(sched) == P["slots"] and all(0 <= s < P["maxstep"] for s in sched)
+    pre: all(sched[i] < sched[i + 1] for i in range(len(sched) - 1))
     post: _
     """
     hx.begin()
@@ -110,7 +113,8 @@ SESSION_STARTS = [0, 1, 77, 0xffffffff, 0x100000000, MAX64 - 2, MAX64 - 1, MAX64
 
 def session_concurrent(si: int, sched: List[int]) -> bool:
     """
-    pre: 0 <= si < len(SESSION_STARTS) and len(sched) == P["slots"] and all(0 <= s <= 2 for s in sched)
+    pre: 0 <= si < len(SESSION_STARTS) and len(sched) == P["slots"] and all(0 <= s < P["maxstep"] for s in sched)
+    pre: all(sched[i] < sched[i + 1] for i in range(len(sched) - 1))
     post: _
     """
     hx.begin()
@@ -165,19 +169,21 @@ def repro_seq_race():
 
 def specs(tier, seed, carve):
     q = tier == "quick"
-    out = [dict(id="seq_concurrent/2x1", fn="seq_concurrent", params={"threads": 2, "draws": 1, "slots": 6, "preempt": 6}, timeout=300,
-                bound="2 threads x 1 draw, every schedule with <= 6 preemptions, every start value in [1, MAX]"),
-           dict(id="seq_concurrent/2x2", fn="seq_concurrent", params={"threads": 2, "draws": 2, "slots": 3, "preempt": 3}, timeout=600,
-                bound="2 threads x 2 draws, every schedule with <= 3 preemptions, every start value"),
-           dict(id="seq_concurrent/3x1", fn="seq_concurrent", params={"threads": 3, "draws": 1, "slots": 3, "preempt": 3}, timeout=600,
-                bound="3 threads x 1 draw, every schedule with <= 3 preemptions, every start value"),
+    out = [dict(id="seq_concurrent/2x1", fn="seq_concurrent", params={"threads": 2, "draws": 1, "slots": 3, "preempt": 3, "maxstep": 24}, timeout=600,
+                bound="2 threads x 1 draw, every placement of <= 3 preemptions over the run, every start value in [1, MAX]"),
+           dict(id="seq_concurrent/2x2", fn="seq_concurrent", params={"threads": 2, "draws": 2, "slots": 2, "preempt": 2, "maxstep": 44}, timeout=900,
+                bound="2 threads x 2 draws, every placement of <= 2 preemptions, every start value"),
+           dict(id="seq_concurrent/3x1", fn="seq_concurrent", params={"threads": 3, "draws": 1, "slots": 2, "preempt": 2, "maxstep": 34}, timeout=900,
+                bound="3 threads x 1 draw, every placement of <= 2 preemptions (round-robin target), every start value"),
            dict(id="seq_sequential", fn="seq_sequential", params={}, timeout=60, bound="4 successive draws from every start value in [1, MAX]"),
            dict(id="seq_init", fn="seq_init", params={}, timeout=120, bound="every start time in [1, 2^32), every random low part"),
-           dict(id="session_concurrent/1", fn="session_concurrent", params={"draws": 1, "slots": 3, "preempt": 3}, timeout=600,
-                bound="2 threads x 1 draw, <= 3 preemptions, start values from an 8-element boundary pool (incl. MAX-2..MAX)"),
-           dict(id="session_concurrent/2", fn="session_concurrent", params={"draws": 2, "slots": 2, "preempt": 2}, timeout=600,
-                bound="2 threads x 2 draws, <= 2 preemptions, boundary start values")]
+           dict(id="session_concurrent/1", fn="session_concurrent", params={"draws": 1, "slots": 2, "preempt": 2, "maxstep": 30}, timeout=900,
+                bound="2 threads x 1 draw, every placement of <= 2 preemptions, start values from an 8-element boundary pool (incl. MAX-2..MAX)"),
+           dict(id="session_concurrent/2", fn="session_concurrent", params={"draws": 2, "slots": 1, "preempt": 1, "maxstep": 56}, timeout=900,
+                bound="2 threads x 2 draws, every placement of 1 preemption, boundary start values")]
     if not q:
-        out.append(dict(id="seq_concurrent/3x2", fn="seq_concurrent", params={"threads": 3, "draws": 2, "slots": 3, "preempt": 3}, timeout=2400,
-                        bound="3 threads x 2 draws, every schedule with <= 3 preemptions, every start value"))
+        out.append(dict(id="seq_concurrent/3x2", fn="seq_concurrent", params={"threads": 3, "draws": 2, "slots": 3, "preempt": 3, "maxstep": 70}, timeout=6000,
+                        bound="3 threads x 2 draws, every placement of <= 3 preemptions, every start value"))
+        out.append(dict(id="session_concurrent/1x3", fn="session_concurrent", params={"draws": 1, "slots": 3, "preempt": 3, "maxstep": 30}, timeout=3000,
+                        bound="2 threads x 1 draw, every placement of <= 3 preemptions, boundary start values"))
     return out
